@@ -716,5 +716,11 @@ def run(chk):
     r11_command_line_counts(chk, prog)
     chk.rule('R12', 'a key is paired with its value according to the value mode (exhaustive table)', 12)
     r12_value_mode_table(chk, prog)
+    # R13: a required value that is missing is noticed: the tokeniser does not turn the next WORD into a value just
+    # because the argument requested one (decision table of ArgListIterator::operator++, shared with C01-R9)
+    from . import c01
+    chk.rule('R13', "tokeniser: a requested value is taken from the rest of the same word only (so '-s -f' is a "
+             "missing value)", 8)
+    c01.r9_value_word_decision(chk, prog, rule='R13')
     from . import c02_shapes
     c02_shapes.run(chk, prog)
